@@ -83,26 +83,26 @@ func (o objInfo) nontrivial() bool {
 }
 
 type repo struct {
-	idx     int
-	layout  string
-	format  string
-	dir     string // bare git dir of the main repository
-	altDir  string
-	truth   packlab.ObjMap
-	ids     []string
-	info    map[string]objInfo
-	byType  map[string][]string
-	hasRev  bool
+	idx      int
+	layout   string
+	format   string
+	dir      string // bare git dir of the main repository
+	altDir   string
+	truth    packlab.ObjMap
+	ids      []string
+	info     map[string]objInfo
+	byType   map[string][]string
+	hasRev   bool
 	bigDelta string // layout bigdelta: id of the >16 MiB blob stored as a delta
 }
 
 type optSet struct {
-	Cache   string `json:"cache"`
-	InMem   bool   `json:"inmem_idx"`
-	LOT     int64  `json:"large_object_threshold"`
-	Excl    bool   `json:"exclusive"`
-	Pool    int    `json:"pool"` // -1 default
-	Mmap    bool   `json:"mmap"`
+	Cache string `json:"cache"`
+	InMem bool   `json:"inmem_idx"`
+	LOT   int64  `json:"large_object_threshold"`
+	Excl  bool   `json:"exclusive"`
+	Pool  int    `json:"pool"` // -1 default
+	Mmap  bool   `json:"mmap"`
 	// NoPrefix: this sequence issues no HashesWithPrefix (keeps ExclusiveAccess iteration observable on its own)
 	NoPrefix bool `json:"no_prefix_queries"`
 }
@@ -738,6 +738,9 @@ func runSequence(c *vf.Ctx, rp *repo, o optSet, r *rand.Rand, n int) {
 		if r.Intn(4) == 0 && k > 0 { // locality: stay near the previous object
 			id = rp.ids[(sort.SearchStrings(rp.ids, id)+1)%len(rp.ids)]
 		}
+		if rp.bigDelta != "" && r.Intn(2) == 0 {
+			id = rp.bigDelta
+		}
 		h := plumbing.NewHash(id)
 		want := rp.truth[id]
 		op := ""
@@ -1068,6 +1071,9 @@ func packLevel(c *vf.Ctx, rp *repo) {
 						}
 						c.Count("packlevel_reads", 1)
 						c.Count("reads", 1)
+						if ie.ID == rp.bigDelta {
+							c.Count("reads_big_delta", 1)
+						}
 						if err != nil {
 							s.fail(sub, "error", ie.ID, err.Error())
 							continue
